@@ -561,6 +561,10 @@ func (a *arrayObject) exportToArrayOrSlice(dst reflect.Value, typ reflect.Type, 
 			if p, ok := val.(*valueProperty); ok {
 				val = p.get(a.val)
 			}
+			if val == nil {
+				// a hole: reads as the inherited element, if any, or undefined
+				val = nilSafe(a.getIdx(valueInt(i), nil))
+			}
 			err := r.toReflectValue(val, dst.Index(i), ctx)
 			if err != nil {
 				return fmt.Errorf("could not convert array element %v to %v at %d: %w", val, typ, i, err)
